@@ -362,6 +362,10 @@ fn exchange(port: u16, input: &[u8]) -> String {
 
 pub struct Stack;
 impl Group for Stack {
+    // a real server / real sockets with read timeouts: a failure counts if it shows again when the same case is re-run
+    fn timing_sensitive(&self) -> bool {
+        true
+    }
     fn name(&self) -> &'static str {
         "c02.stack"
     }
